@@ -29,6 +29,7 @@ type c11Case struct {
 	Client      clientScript `json:"client_script"`
 	ClientFault string       `json:"client_fault"`
 	LogEach     bool         `json:"log_each"`
+	FairBound   int          `json:"fair_scheduler_bound"`
 	SlowNode    int          `json:"slow_node_permille"`
 }
 
@@ -196,6 +197,9 @@ func c11Gen(tape *simrt.Tape, tier string) *c11Case {
 	}
 	c := &c11Case{}
 	c.N = tape.Range(1, maxN, "ncases")
+	if tape.Bool(1, 4, "bigbatch") {
+		c.N += 2 * maxN // longer batches: what happens after a mid-batch fault has room to show
+	}
 	c.UseTLS = tape.Bool(1, 2, "tls")
 	if c.UseTLS {
 		c.ClientCerts = tape.Bool(1, 2, "clientcerts")
@@ -207,6 +211,8 @@ func c11Gen(tape *simrt.Tape, tier string) *c11Case {
 	c.Client, c.ClientFault = genClientForBatch(tape, c.N, c.RefClient)
 	if tape.Bool(1, 8, "slownode") {
 		c.SlowNode = 1 + tape.Choose(20, "slowpermille")
+	} else if tape.Bool(1, 3, "fair") {
+		c.FairBound = []int{3, 6, 12}[tape.Choose(3, "fairbound")]
 	}
 	return c
 }
@@ -274,6 +280,7 @@ func c11Body(tape *simrt.Tape, o simwork.Opts, res *simwork.Result) {
 	defer sim.Detach()
 	sim.KeepLog = o.KeepLog
 	sim.SlowNodePermille = cs.SlowNode
+	sim.FairBound = cs.FairBound
 	viol := func(class, format string, args ...any) {
 		res.Violations = append(res.Violations, simwork.Violation{Class: class, Detail: fmt.Sprintf(format, args...)})
 	}
@@ -329,10 +336,13 @@ func c11Body(tape *simrt.Tape, o simwork.Opts, res *simwork.Result) {
 	)
 	// invariant: an outcome, once recorded, is never replaced by a different one
 	seen := map[string]testOutcome{}
-	cancelStep := -1
+	cancelStep, exitStep := -1, -1
 	sim.Invariant = func() string {
 		if cancelStep < 0 && server.ctx != nil && server.ctx.Err() != nil {
 			cancelStep = sim.Steps()
+		}
+		if exitStep < 0 && server.exited {
+			exitStep = sim.Steps()
 		}
 		for name, oc := range results.outcomes {
 			prev, ok := seen[name]
@@ -551,6 +561,25 @@ func c11Body(tape *simrt.Tape, o simwork.Opts, res *simwork.Result) {
 		for name, st := range rec.enter {
 			if st > cancelStep+1 {
 				viol("c11/sent-after-server-death", "request %q was handed to the client at step %d although the server's process context was cancelled by step %d", name, st, cancelStep)
+			}
+		}
+	}
+
+	// ---- bounded progress under a fair scheduler: once the server process has
+	// ended, the runner notices within a bounded number of steps (every runnable
+	// task is released within FairBound steps; noticing takes the watcher task a
+	// handful of its own steps) and stops handing requests to the client.
+	// The step bound uses the largest scheduling delay measured in this run, so
+	// it is sound for any schedule (and vacuous for unfair ones): between the
+	// end of the server process and the cancellation lie at most 8 scheduling
+	// points (stderr line, three pipe closes, done channel, watcher task).
+	if rec != nil && exitStep >= 0 {
+		limit := exitStep + 8*(sim.MaxWait+2)
+		for name, st := range rec.enter {
+			if st > limit && (cancelStep < 0 || cancelStep > limit) {
+				viol("c11/server-death-unnoticed", "no task waited more than %d steps in this run (fair bound %d), the server process ended at step %d, but request %q was still handed to the client at step %d and the server's process context was not cancelled by then (cancelled at step %d)",
+					sim.MaxWait, cs.FairBound, exitStep, name, st, cancelStep)
+				break
 			}
 		}
 	}
